@@ -194,7 +194,7 @@ def _run_shard(prop, idx, tier, seed, t_end):
     shrunk = {}
     for sig in list(st["new"])[:MAX_SIGS_PER_SHARD]:
         best = dict(st["new"][sig])
-        if shard.cases is None:
+        if shard.cases is None and "hangs-or-runs-away" not in sig:
             deadline = time.time() + SHRINK_CAP[tier]
 
             def failing(case, sig=sig, best=best, deadline=deadline):
